@@ -205,7 +205,26 @@ def side_blocks(body, pred):
     return out
 
 
-def require_guard(ctx, body, oid, rule, pred, desc, start=None, extra_barriers=(), allow_bypass=False, per_iteration=False):
+def side_edges(body, pred):
+    """edges (block, target) taken exactly when a boolean branch's normalised condition satisfies pred:
+    the only edges over which a guard may legitimately be bypassed (its side condition)."""
+    out = []
+    for g in body.guards():
+        cond = g['cond']
+        if cond[0] == 'discr':
+            continue
+        t = g['term']
+        zero = [tb for v, tb in t['vals'] if v == 0]
+        for truth in (True, False):
+            if any(_safe(pred, fc) for fc in norm_bool(cond, truth)):
+                tgt = t['else'] if truth else (zero[0] if zero else None)
+                if tgt is not None:
+                    out.append((g['block'], tgt))
+    return out
+
+
+def require_guard(ctx, body, oid, rule, pred, desc, start=None, extra_barriers=(), allow_bypass=False, per_iteration=False,
+                  bypass_edges=()):
     """There is a guard whose failing condition satisfies `pred`, and no
     non-failure exit is reachable from `start` (default: entry) without passing
     it.  With per_iteration=True the guard may sit in a loop over an iterator:
@@ -230,13 +249,14 @@ def require_guard(ctx, body, oid, rule, pred, desc, start=None, extra_barriers=(
     where = '%s:%s' % (body.file, ms[0]['line'])
     loopy = [g for g in ms if body.in_loop(g['block'])]
     if per_iteration and loopy and len(loopy) == len(ms):
-        bad = loop_guard_bypass(body, ms, extra_barriers)
+        bad = loop_guard_bypass(body, ms, extra_barriers, bypass_edges)
         if bad:
             ctx.ob(oid, rule, False, fn, where, 'guard for "%s" sits in a loop but %s' % (desc, bad),
                    key='%s|%s|%s|bypass' % (rule, oid, fn))
             return ms
     elif not allow_bypass:
-        okr, kinds = body.ok_reachable(avoid_blocks=[g['block'] for g in ms] + list(extra_barriers), start=start or (0, 0))
+        okr, kinds = body.ok_reachable(avoid_blocks=[g['block'] for g in ms] + list(extra_barriers), start=start or (0, 0),
+                                       avoid_edges=list(bypass_edges))
         if okr:
             ctx.ob(oid, rule, False, fn, where,
                    'guard for "%s" exists (line %s) but a non-failure exit is reachable without passing it '
@@ -300,7 +320,7 @@ def inlined_guards(body, pred, depth=1):
     return out
 
 
-def loop_guard_bypass(body, ms, extra_barriers=()):
+def loop_guard_bypass(body, ms, extra_barriers=(), bypass_edges=()):
     """for guards inside `for x in iter` loops: returns a reason string if an
     iteration can complete (or the function can succeed) without the guard."""
     gb = [g['block'] for g in ms] + list(extra_barriers)
@@ -336,10 +356,10 @@ def loop_guard_bypass(body, ms, extra_barriers=()):
         some = [tb for v, tb in body.blocks[sw]['t']['vals'] if names.get(v) == 'Some']
         if not some:
             some = [tb for v, tb in body.blocks[sw]['t']['vals']]
-        reach = body.reach_avoiding(some, avoid_blocks=gb)
+        reach = body.reach_avoiding(some, avoid_blocks=gb, avoid_edges=list(bypass_edges))
         if h in reach:
             return 'an iteration can complete without passing it'
-        ks = body.exits((some[0], 0), avoid_blocks=gb + [h])
+        ks = body.exits((some[0], 0), avoid_blocks=gb + [h], avoid_edges=list(bypass_edges))
         if ks - {'Err', 'Diverge'}:
             return 'a non-failure exit is reachable from inside an iteration without passing it'
     return None
